@@ -243,21 +243,24 @@ impl KeyValueStorage for Handle {
 
 impl Handle {
     fn put(&self, key: Bytes, value: Bytes) -> Result<(), Error> {
+        #[cfg(feature = "verif")]
+        let _v = crate::verif::lock(crate::verif::WRITER, true);
+        let mut writer = self.writer.lock();
+        // Checked while holding the lock, closing the storage waits for the lock to be released
         if self.ctx.closed.load() {
             return Err(Error::Closed);
         }
-        #[cfg(feature = "verif")]
-        let _v = crate::verif::lock(crate::verif::WRITER, true);
-        self.writer.lock().put(key, value)
+        writer.put(key, value)
     }
 
     fn delete(&self, key: Bytes) -> Result<bool, Error> {
+        #[cfg(feature = "verif")]
+        let _v = crate::verif::lock(crate::verif::WRITER, true);
+        let mut writer = self.writer.lock();
         if self.ctx.closed.load() {
             return Err(Error::Closed);
         }
-        #[cfg(feature = "verif")]
-        let _v = crate::verif::lock(crate::verif::WRITER, true);
-        self.writer.lock().delete(key)
+        writer.delete(key)
     }
 
     fn get(&self, key: Bytes) -> Result<Option<Bytes>, Error> {
@@ -285,25 +288,30 @@ impl Handle {
     }
 
     fn merge(&self) -> Result<(), Error> {
+        #[cfg(feature = "verif")]
+        let _v = crate::verif::lock(crate::verif::WRITER, true);
+        let mut writer = self.writer.lock();
         if self.ctx.closed.load() {
             return Err(Error::Closed);
         }
-        #[cfg(feature = "verif")]
-        let _v = crate::verif::lock(crate::verif::WRITER, true);
-        self.writer.lock().merge()
+        writer.merge()
     }
 
     fn sync(&self) -> Result<(), Error> {
+        #[cfg(feature = "verif")]
+        let _v = crate::verif::lock(crate::verif::WRITER, true);
+        let mut writer = self.writer.lock();
         if self.ctx.closed.load() {
             return Err(Error::Closed);
         }
-        #[cfg(feature = "verif")]
-        let _v = crate::verif::lock(crate::verif::WRITER, true);
-        self.writer.lock().sync()
+        writer.sync()
     }
 
     fn close(&self) {
-        self.ctx.closed.store(true)
+        self.ctx.closed.store(true);
+        // Wait for a write, merge or sync that is already running. Every one that comes later
+        // finds the storage closed, so nothing touches the directory once this returns.
+        drop(self.writer.lock());
     }
 }
 
